@@ -152,24 +152,68 @@ theorem traitAttrs_ok (opts : Opts) (ind depMode) (itemAttrs : List Attr) (vis i
     have := List.mem_filter.mp ha
     exact ⟨by simpa using this.1, by simpa using this.2⟩
 
-theorem traitMembers_ok (opts : Opts) (itemAttrs : List Attr) (fns : List TraitFn)
-    (hf : ∀ tf ∈ fns, tf.attrs = [] ∧ noParamAttrs tf.sig.inputs = true) :
-    (fns.map fun tf => GenMember.fn tf.attrs (makeTraitFnSig tf.sig itemAttrs opts) none).all
-      (fun m => match m with | .fn as s _ => as.isEmpty && noParamAttrs s.inputs | .raw _ => true) = true := by
-  simp only [List.all_eq_true, List.mem_map]
-  rintro m ⟨tf, htf, rfl⟩
-  obtain ⟨h1, h2⟩ := hf tf htf
+theorem isCfgAttr_eq (a : Attr) : a.isCfgAttr = isPlainCfg a := by
+  unfold Attr.isCfgAttr isPlainCfg
+  cases hi : a.inner with
+  | nil => simp
+  | cons t rest =>
+    by_cases ht : t = .ident "cfg"
+    · subst ht
+      cases rest with
+      | nil => simp
+      | cons u rest' =>
+        by_cases hu : u = .punct ':'
+        · subst hu; simp
+        · simp [hu]
+    · simp [ht]
+
+/-- the single function: nothing is mirrored -/
+theorem traitMembers_fn_ok (opts : Opts) (itemAttrs : List Attr) (tf : TraitFn)
+    (hf : tf.attrs = [] ∧ noParamAttrs tf.sig.inputs = true) :
+    memberAttrsOk [[]] ([tf].map fun tf => GenMember.fn tf.attrs (makeTraitFnSig tf.sig itemAttrs opts) none) = true := by
   have : (makeTraitFnSig tf.sig itemAttrs opts).inputs = tf.sig.inputs := by
     unfold makeTraitFnSig; split <;> rfl
-  simp [h1, this, h2]
+  simp [memberAttrsOk, zipAll, hf.1, this, hf.2]
 
-theorem implMembers_ok (mode ind) (fns : List TraitFn)
-    (hf : ∀ tf ∈ fns, tf.attrs = [] ∧ noParamAttrs tf.sig.inputs = true) :
-    (fns.map fun tf => GenMember.fn [] tf.sig (some (delegatingBody mode ind tf))).all
-      (fun g => match g with | .fn as s _ => as.isEmpty && noParamAttrs s.inputs | .raw _ => true) = true := by
-  simp only [List.all_eq_true, List.mem_map]
-  rintro m ⟨tf, htf, rfl⟩
-  simp [(hf tf htf).2]
+theorem implMembers_fn_ok (mode ind) (tf : TraitFn)
+    (hf : tf.attrs = [] ∧ noParamAttrs tf.sig.inputs = true) :
+    memberAttrsOk [[]] ([tf].map fun tf => GenMember.fn tf.attrs tf.sig (some (delegatingBody mode ind tf))) = true := by
+  simp [memberAttrsOk, zipAll, hf.1, hf.2]
+
+/-- functions of a module / impl block: after the mirroring every analysed function carries exactly the `cfg`
+    attributes of its source function, and no parameter attributes -/
+theorem attachCfg_spec : ∀ (fs : List FnItem) (fns0 : List TraitFn),
+    zipAll (fun (_ : Sig) (tf : TraitFn) => noParamAttrs tf.sig.inputs) (fs.map (·.sig)) fns0 = true →
+    zipAll (fun c (tf : TraitFn) => tf.attrs == c && noParamAttrs tf.sig.inputs)
+      (fs.map (fun f => f.attrs.filter isPlainCfg)) (attachCfg (fs.map (·.attrs)) fns0) = true
+  | [], [], _ => rfl
+  | [], _ :: _, h => by simp [zipAll] at h
+  | _ :: _, [], h => by simp [zipAll] at h
+  | f :: fs, tf :: fns0, h => by
+      simp only [List.map_cons, zipAll, Bool.and_eq_true] at h
+      simp only [List.map_cons, attachCfg, zipAll, Bool.and_eq_true, withCfgOf_attrs, withCfgOf_sig]
+      refine ⟨⟨?_, h.1⟩, attachCfg_spec fs fns0 h.2⟩
+      have : List.filter Attr.isCfgAttr f.attrs = List.filter isPlainCfg f.attrs := by
+        congr 1; funext a; exact isCfgAttr_eq a
+      simp [this]
+
+theorem traitMembers_ok (opts : Opts) (itemAttrs : List Attr) (exp : List (List Attr)) (fns : List TraitFn)
+    (hf : zipAll (fun c (tf : TraitFn) => tf.attrs == c && noParamAttrs tf.sig.inputs) exp fns = true) :
+    memberAttrsOk exp (fns.map fun tf => GenMember.fn tf.attrs (makeTraitFnSig tf.sig itemAttrs opts) none) = true := by
+  unfold memberAttrsOk
+  rw [zipAll_map_right]
+  refine zipAll_mono _ _ _ _ ?_ hf
+  intro c _ tf _ h
+  have : (makeTraitFnSig tf.sig itemAttrs opts).inputs = tf.sig.inputs := by
+    unfold makeTraitFnSig; split <;> rfl
+  simpa [this] using h
+
+theorem implMembers_ok (mode ind) (exp : List (List Attr)) (fns : List TraitFn)
+    (hf : zipAll (fun c (tf : TraitFn) => tf.attrs == c && noParamAttrs tf.sig.inputs) exp fns = true) :
+    memberAttrsOk exp (fns.map fun tf => GenMember.fn tf.attrs tf.sig (some (delegatingBody mode ind tf))) = true := by
+  unfold memberAttrsOk
+  rw [zipAll_map_right]
+  exact hf
 
 theorem implAttrs_ok (itemAttrs : List Attr) :
     (itemAttrs.filter (fun a => a.subKind == .asyncTrait)).all
@@ -184,34 +228,41 @@ theorem T_C18 (v : Variant) (attr : Toks) (item : Item) (out : Out)
   | fn f =>
     obtain ⟨a, tf, tg, depMode, implBlock, _, h2, _, h4, rfl⟩ := expandFn_ok h
     have him := genImplBlock_ok h4
-    have hf : ∀ x ∈ [tf], x.attrs = [] ∧ noParamAttrs x.sig.inputs = true := by
-      intro x hx; simp at hx; subst hx; exact analyzeFn_noAttrs h2
-    simp only [P_C18, Out.view, View.items, Out.inside, Out.after, List.nil_append, traitsOf, implsOf, Item.attrs,
+    have hf := analyzeFn_noAttrs h2
+    simp only [P_C18, mirroredAttrs, Out.view, View.items, Out.inside, Out.after, List.nil_append, traitsOf, implsOf, Item.attrs,
       List.all_cons, List.all_nil, Bool.and_true, Bool.and_eq_true]
     refine ⟨⟨traitAttrs_ok _ _ _ _ _ _ _ _ _ _ (by decide), ?_⟩, ?_⟩
-    · simp only [genTraitDef]; exact traitMembers_ok _ _ _ hf
-    · rw [him]; exact ⟨implAttrs_ok _, implMembers_ok _ _ _ hf⟩
+    · simp only [genTraitDef]; exact traitMembers_fn_ok _ _ _ hf
+    · rw [him]; exact ⟨implAttrs_ok _, implMembers_fn_ok _ _ _ hf⟩
   | mod_ m =>
     simp only [expand] at h
     split at h
     · simp at h
-    · obtain ⟨items, a, fns, tg, depMode, implBlock, _, _, h2, _, h4, rfl⟩ := expandMod_ok h
+    · obtain ⟨items, a, fns0, fns, tg, depMode, implBlock, h0, _, h2, hfns, _, h4, rfl⟩ := expandMod_ok h
       have him := genImplBlock_ok h4
-      have hf := analyzeFns_all .selfRef (v.apply a.opts) (fun tf => tf.attrs = [] ∧ noParamAttrs tf.sig.inputs = true)
-        (fun s tg0 tf tg1 han => analyzeFn_noAttrs han) _ _ _ _ h2
-      simp only [P_C18, Out.view, View.items, Out.inside, Out.after, List.cons_append, List.nil_append, traitsOf, implsOf,
-        Item.attrs, List.all_cons, List.all_nil, Bool.and_true, Bool.and_eq_true]
+      have hz := analyzeFns_zip .selfRef (v.apply a.opts) (fun (_ : Sig) tf => noParamAttrs tf.sig.inputs)
+        ((items.filterMap BodyItem.fn?).map (·.sig)) {} tg fns0
+        (fun s _ tg0 tf tg1 han => (analyzeFn_noAttrs han).2) h2
+      have hf := attachCfg_spec _ _ hz
+      have hfns' : fns = attachCfg ((items.filterMap BodyItem.fn?).map (·.attrs)) fns0 := hfns
+      rw [← hfns'] at hf
+      simp only [P_C18, mirroredAttrs, Item.sourceFns, h0, Out.view, View.items, Out.inside, Out.after, List.cons_append,
+        List.nil_append, traitsOf, implsOf, Item.attrs, List.all_cons, List.all_nil, Bool.and_true, Bool.and_eq_true]
       refine ⟨⟨traitAttrs_ok _ _ _ _ _ _ _ _ _ _ (by decide), ?_⟩, ?_⟩
-      · simp only [genTraitDef]; exact traitMembers_ok _ _ _ hf
-      · rw [him]; exact ⟨implAttrs_ok _, implMembers_ok _ _ _ hf⟩
+      · simp only [genTraitDef]; exact traitMembers_ok _ _ _ _ hf
+      · rw [him]; exact ⟨implAttrs_ok _, implMembers_ok _ _ _ _ hf⟩
   | impl m =>
-    obtain ⟨items, a, fns, tg, depMode, implBlock, _, _, h2, _, h4, rfl⟩ := expandImpl_ok h
+    obtain ⟨items, a, fns0, fns, tg, depMode, implBlock, h0, _, h2, hfns, _, h4, rfl⟩ := expandImpl_ok h
     have him := genImplBlock_ok h4
-    have hf := analyzeFns_all _ (v.apply a.opts) (fun tf => tf.attrs = [] ∧ noParamAttrs tf.sig.inputs = true)
-      (fun s tg0 tf tg1 han => analyzeFn_noAttrs han) _ _ _ _ h2
-    simp only [P_C18, Out.view, View.items, Out.inside, Out.after, List.nil_append, traitsOf, implsOf,
+    have hz := analyzeFns_zip _ (v.apply a.opts) (fun (_ : Sig) tf => noParamAttrs tf.sig.inputs)
+      ((items.filterMap BodyItem.fn?).map (·.sig)) {} tg fns0
+      (fun s _ tg0 tf tg1 han => (analyzeFn_noAttrs han).2) h2
+    have hf := attachCfg_spec _ _ hz
+    have hfns' : fns = attachCfg ((items.filterMap BodyItem.fn?).map (·.attrs)) fns0 := hfns
+    rw [← hfns'] at hf
+    simp only [P_C18, mirroredAttrs, Item.sourceFns, h0, Out.view, View.items, Out.inside, Out.after, List.nil_append, traitsOf, implsOf,
       Item.attrs, List.all_cons, List.all_nil, Bool.and_true, Bool.true_and, Bool.and_eq_true]
-    rw [him]; exact ⟨implAttrs_ok _, implMembers_ok _ _ _ hf⟩
+    rw [him]; exact ⟨implAttrs_ok _, implMembers_ok _ _ _ _ hf⟩
   | trait t =>
     obtain ⟨a0, fns, delegation, _, h2, _, rfl⟩ := expandTrait_ok h
     have hf := analyzeTraitMembers_ok _ _ h2
@@ -228,5 +279,15 @@ theorem T_C18 (v : Variant) (attr : Toks) (item : Item) (out : Out)
     | cons f rest ih =>
       simp only [zipAll, Bool.and_eq_true]
       exact ⟨by simp [delegationMethod, traitFnOf, GenMember.attrs], ih⟩
+
+/-- non-vacuity: `mod m { #[cfg(any())] #[inline] pub fn a(d: &impl X) {} pub fn c(d: &impl X) {} }` — the trait
+    method and the delegating method of `a` carry `#[cfg(any())]` and not `#[inline]`, those of `c` nothing -/
+example :
+    (match expand .plain [i "Foo"] (.mod_ Examples.modCfg) with
+     | .ok out =>
+        (traitsOf out.view.items).map (fun t => t.members.map GenMember.attrs) ++
+        (implsOf out.view.items).map (fun m => m.members.map GenMember.attrs)
+     | _ => []) =
+    [[[⟨[i "cfg", parens [i "any", parens []]]⟩], []], [[⟨[i "cfg", parens [i "any", parens []]]⟩], []]] := by decide +kernel
 
 end Entrait.C18
